@@ -1843,17 +1843,17 @@ class TimePoint:
             self._second_of_minute += (
                 minutes_remainder * CALENDAR.SECONDS_IN_MINUTE)
         if self._second_of_minute is not None:
-            num_minutes, seconds = divmod(self._second_of_minute,
-                                          CALENDAR.SECONDS_IN_MINUTE)
+            num_minutes, seconds = _divmod(self._second_of_minute,
+                                           CALENDAR.SECONDS_IN_MINUTE)
             self._minute_of_hour += num_minutes
             self._second_of_minute = seconds
         if self._minute_of_hour is not None:
-            num_hours, minutes = divmod(self._minute_of_hour,
-                                        CALENDAR.MINUTES_IN_HOUR)
+            num_hours, minutes = _divmod(self._minute_of_hour,
+                                         CALENDAR.MINUTES_IN_HOUR)
             self._hour_of_day += num_hours
             self._minute_of_hour = minutes
         if self._hour_of_day is not None:
-            num_days, hours = divmod(self._hour_of_day, CALENDAR.HOURS_IN_DAY)
+            num_days, hours = _divmod(self._hour_of_day, CALENDAR.HOURS_IN_DAY)
             num_days = int(num_days)
             if self._day_of_week is not None:
                 self._day_of_week += num_days
@@ -2619,6 +2619,19 @@ def _int_caster(number, name="number", allow_none=False):
         raise BadInputError(
             BadInputError.INT_REMAINDER, name, number)
     return int_number
+
+
+def _divmod(value, divisor):
+    """Return divmod(value, divisor) with a remainder less than the divisor.
+
+    For a tiny negative float, the built-in divmod rounds the remainder up to
+    the divisor itself, e.g. divmod(-1e-16, 60) == (-1.0, 60.0).
+    """
+    quotient, remainder = divmod(value, divisor)
+    if remainder == divisor:
+        quotient += 1
+        remainder -= divisor
+    return quotient, remainder
 
 
 def _type_checker(*objects):
